@@ -41,8 +41,8 @@ F7 = "F7-float32-problem-tables-when-problem-created-before-x64"
 
 def plan(tier):
     if tier == "quick":
-        return dict(shards=16, examples=192, time_budget_s=700, min_nontrivial=40, shrink_cap_s=90)
-    return dict(shards=16, examples=4800, time_budget_s=3400, min_nontrivial=900)
+        return dict(shards=16, examples=192, time_budget_s=700, min_nontrivial=30, shrink_cap_s=90)
+    return dict(shards=16, examples=4800, time_budget_s=3400, min_nontrivial=360)
 
 
 SMALL_PROBLEMS = [
